@@ -168,7 +168,7 @@ func (C05) Explore(x *kernel.Explorer, seed uint64) {
 	r := kernel.NewRNG(seed, 0xc05)
 	for i := 0; i < 4 && !x.Expired(); i++ {
 		plan := &kernel.Plan{Prop: "C05", Seed: kernel.Mix(seed, uint64(i)), Swarm: map[string]int64{
-			"chunk": int64(r.Intn(4)), "ignoreparse": int64(r.Intn(2)), "chainseed": int64(r.Uint32()), "extended": int64(r.Intn(3) / 2)}}
+			"chunk": int64(r.Intn(4)), "ignoreparse": int64(r.Intn(2)), "chainseed": int64(r.Uint32()), "extended": int64(r.Intn(3) / 2), "mysql": int64(r.Intn(3) / 2), "depeof": int64(r.Intn(2))}}
 		n := 3 + r.Intn(8)
 		for j := 0; j < n; j++ {
 			plan.Ops = append(plan.Ops, kernel.Op{ID: j + 1, Kind: "stmt",
@@ -254,8 +254,9 @@ func (C05) Run(t *testing.T, plan *kernel.Plan, keepLog bool) *kernel.Result {
 		chain := c05Chain(kernel.NewRNG(uint64(plan.Sw("chainseed")), 5), stmts)
 		ignoreParse := plan.Sw("ignoreparse") == 1
 		cols := []colKind{{Name: "c1", Envelope: "acrablock", DataType: "str", OnFail: "default_value", Default: "defaultstr"}}
+		mysql := plan.Sw("mysql") == 1
 		pw, err := NewPgWorld(w, rng, PgWorldConfig{SchemaYAML: schemaYAML(cols), CensorYAML: c05YAML(chain, ignoreParse),
-			Clients: []string{owner}, ChunkMode: int(plan.Sw("chunk"))})
+			Clients: []string{owner}, ChunkMode: int(plan.Sw("chunk")), MySQL: mysql, MyDeprecateEOF: plan.Sw("depeof") == 1})
 		if err != nil {
 			w.Violate("C05", "world-builds", "pg", fmt.Sprintf("%v\n%s", err, c05YAML(chain, ignoreParse)))
 			return
@@ -281,6 +282,16 @@ func (C05) Run(t *testing.T, plan *kernel.Plan, keepLog bool) *kernel.Result {
 			w.Violate("C14", "no-panic", "pg/proxy", p)
 		}
 		site := "pg"
+		if mysql {
+			site = "mysql"
+		}
+		isBlocked := func(res StmtResult) bool {
+			if mysql {
+				// the MySQL proxy answers a blocked statement with its "query interrupted" error
+				return strings.Contains(res.Err, "Query execution was interrupted")
+			}
+			return strings.Contains(res.Err, "AcraCensor blocked this query")
+		}
 		if run.Stuck || run.ClientErr != "" {
 			if plan.Sw("extended") == 1 {
 				site += "/extended"
@@ -292,7 +303,8 @@ func (C05) Run(t *testing.T, plan *kernel.Plan, keepLog bool) *kernel.Result {
 			return
 		}
 		toDB := run.ToDB.Log
-		extended := plan.Sw("extended") == 1
+		// PostgreSQL's extended protocol is a pipeline; MySQL prepares and executes in separate round trips
+		extended := plan.Sw("extended") == 1 && !mysql
 		base := len(w.Res.Violations)
 		rejectedAt := -1
 		for i, s := range stmts {
@@ -301,7 +313,7 @@ func (C05) Run(t *testing.T, plan *kernel.Plan, keepLog bool) *kernel.Result {
 				// Sync) still flows; whatever follows is summarised as one class.
 				res := run.Results[i]
 				admit, _ := c05Verdict(chain, ignoreParse, s)
-				blocked := strings.Contains(res.Err, "AcraCensor blocked this query")
+				blocked := isBlocked(res)
 				if admit == blocked || (admit && s.tmpl.name == "sel_t2" && (res.Err != "" || len(res.Rows) != 1)) {
 					w.Res.Violations = w.Res.Violations[:base]
 					w.Violate("C05", "session-serves-statements-after-rejection", site+"/extended", fmt.Sprintf("after the rejected extended-protocol statement %q the session answers %q with err=%q rows=%d messages=%v", script[rejectedAt].SQL, script[i].SQL, res.Err, len(res.Rows), res.Messages))
@@ -311,7 +323,7 @@ func (C05) Run(t *testing.T, plan *kernel.Plan, keepLog bool) *kernel.Result {
 			}
 			res := run.Results[i]
 			admit, why := c05Verdict(chain, ignoreParse, s)
-			blocked := strings.Contains(res.Err, "AcraCensor blocked this query")
+			blocked := isBlocked(res)
 			mk := []byte(fmt.Sprint(s.marker))
 			proto := "simple"
 			if script[i].Extended {
@@ -347,7 +359,7 @@ func (C05) Run(t *testing.T, plan *kernel.Plan, keepLog bool) *kernel.Result {
 			switch s.tmpl.name {
 			case "sel_t2":
 				if res.Err != "" || len(res.Rows) != 1 || string(res.Rows[0][0]) != fmt.Sprint(s.marker) || string(res.Rows[0][1]) != fmt.Sprintf("note-%d", s.marker) ||
-					(len(res.Fields) > 0 && (len(res.Fields) != 2 || res.Fields[1].DataTypeOID != 25)) {
+					(len(res.Fields) > 0 && (len(res.Fields) != 2 || (!mysql && res.Fields[1].DataTypeOID != 25))) {
 					got := "no row"
 					if len(res.Rows) > 0 {
 						got = fmt.Sprintf("%q", res.Rows[0])
